@@ -25,9 +25,9 @@ type bnCase struct {
 
 func bignumScenarios(tier string) []engine.Scenario {
 	var scs []engine.Scenario
-	exhaust, maxDeg := 5, 15
+	exhaust, maxDeg := 5, 31
 	if tier == "thorough" {
-		exhaust, maxDeg = 7, 31
+		exhaust, maxDeg = 7, 63
 	}
 	shapes := shapesFor(exhaust, maxDeg)
 	for _, bc := range basisCases {
